@@ -18,6 +18,7 @@ import (
 	"context"
 	"errors"
 	"fmt"
+	"github.com/attestantio/go-builder-client/spec"
 	"strings"
 	"time"
 
@@ -57,6 +58,9 @@ type plan struct {
 }
 
 var opKinds = []string{"lookup", "lookup", "lookup-nil", "auction", "auction", "auction", "bid", "bid-foreign", "bid-shared", "vregs", "round", "round-direct", "refresh", "refresh", "prepare"}
+
+// BidClauses: judge the bids handed out to beacon nodes (C09's statement; set by the scenario registered for C09).
+var BidClauses = false
 
 // AtomicityClauses: also judge outcomes that no sequential order of overlapping requests produces (set by the
 // C17 wrapper; they are not part of C12's statement).  Reported with the "C17/non-sequential/" prefix.
@@ -204,6 +208,7 @@ type opRec struct {
 	err               error
 	got               *beaconblockproposer.ProposerConfig
 	final             bool
+	bid               *spec.VersionedSignedBuilderBid // what a bid request returned
 }
 
 func exec(plAny any, sched *simrt.Tape) *sim.Outcome {
@@ -266,10 +271,10 @@ func exec(plAny any, sched *simrt.Tape) *sim.Outcome {
 			case "auction":
 				_, r.err = w.Svc.AuctionBlock(svcCtx, phase0.Slot(1000+r.client), phase0.Hash32{byte(r.client)}, v.PubKey)
 			case "bid":
-				_, r.err = w.Svc.BuilderBid(svcCtx, phase0.Slot(1000+r.client), phase0.Hash32{byte(r.client)}, v.PubKey)
+				r.bid, r.err = w.Svc.BuilderBid(svcCtx, phase0.Slot(1000+r.client), phase0.Hash32{byte(r.client)}, v.PubKey)
 			case "bid-shared":
 				// the same (slot, parent, validator) as asked for by other beacon nodes (clients)
-				_, r.err = w.Svc.BuilderBid(svcCtx, phase0.Slot(3000), phase0.Hash32{0xee}, v.PubKey)
+				r.bid, r.err = w.Svc.BuilderBid(svcCtx, phase0.Slot(3000), phase0.Hash32{0xee}, v.PubKey)
 			case "bid-foreign":
 				_, r.err = w.Svc.BuilderBid(svcCtx, phase0.Slot(2000+r.client), phase0.Hash32{byte(r.client)}, relaysim.RelayPub(30+r.Val))
 			case "vregs":
@@ -466,6 +471,20 @@ func oracle(pl *plan, w *relaysim.World, recs []*opRec, finalInstalled time.Dura
 		return Viol("C12/not-last-good-config", "%s for %s in [%v,%v]: %s%s matches none of the %d configurations that can be in force (%s)",
 			what, val.Name, tc, tr, relaysim.Canon(got, nil), e, len(cands), strings.Join(why, " | "))
 	}
+	// (C09, run by its check through the scenario "rest-builder-bid") a bid handed to a beacon node is a relay's
+	// bid: when the auction had no winner the answer is "no bid", never the zero-valued record of that outcome
+	if BidClauses {
+		for _, r := range recs {
+			if r.bid == nil || r.err != nil {
+				continue
+			}
+			v, err := r.bid.Value()
+			if err != nil || v == nil || v.Sign() <= 0 {
+				return Viol("C09/bid-without-value-handed-out", "%s(val %d) of client %d returned a builder bid without a positive value (value %v, error %v): there was no winning bid", r.Kind, r.Val, r.client, v, err)
+			}
+			out.Probes["handed-out-bid-checked"]++
+		}
+	}
 	// requests for one builder bid from several beacon nodes: once an auction for it has completed, its result is
 	// served to everybody; a second completed auction for the same (slot, parent, validator) is the outcome of no
 	// sequential order of the requests
@@ -561,11 +580,11 @@ func oracle(pl *plan, w *relaysim.World, recs []*opRec, finalInstalled time.Dura
 		tc := time.Duration(-1)
 		acct := true
 		for _, r := range recs {
-			if (r.Kind == "auction" || r.Kind == "bid") && r.Val == val.N && r.callStep <= a.Step && (!r.returned || r.retStep >= a.Step) {
+			if (r.Kind == "auction" || r.Kind == "bid" || r.Kind == "bid-shared") && r.Val == val.N && r.callStep <= a.Step && (!r.returned || r.retStep >= a.Step) {
 				if tc < 0 || r.callT < tc {
 					tc = r.callT
 				}
-				if r.Kind == "bid" {
+				if r.Kind == "bid" || r.Kind == "bid-shared" {
 					acct = false // BuilderBid auctions without the account: regex entries see "<unknown>"
 				}
 			}
@@ -603,4 +622,29 @@ func oracle(pl *plan, w *relaysim.World, recs []*opRec, finalInstalled time.Dura
 func init() {
 	sim.Register(&sim.Scenario{Property: "C12", Name: "config-source-chaos", Gen: gen, Exec: exec})
 	sim.Register(&sim.Scenario{Property: "C12", Name: "lookups-and-rounds", Gen: genCalm, Exec: exec})
+	// builder bids as the REST interface hands them to beacon nodes, several nodes asking at once: run by C09's
+	// check (only the clause on handed-out bids, panics and deadlocks count there)
+	sim.Register(&sim.Scenario{Property: "C09", Name: "rest-builder-bid", Weight: 1, Gen: func(p *simrt.Tape) any {
+		pl := genPlan(p, false).(*plan)
+		// more requests for the shared bid, from every client, around the bursts
+		for c := range pl.Clients {
+			if len(pl.Clients[c]) > 0 && p.Pct(70) {
+				pl.Clients[c] = append([]op{{At: pl.Clients[c][0].At, Kind: "bid-shared", Val: 0}}, pl.Clients[c]...)
+			}
+		}
+		return pl
+	}, Exec: func(plan any, sched *simrt.Tape) *sim.Outcome {
+		BidClauses = true
+		o := exec(plan, sched)
+		BidClauses = false
+		if o != nil && o.Violation != nil && !strings.HasPrefix(o.Violation.Kind, "C09/") && !strings.HasPrefix(o.Violation.Kind, "harness-") {
+			switch o.Violation.Kind {
+			case "C12/panic", "C12/deadlock":
+				o.Violation.Kind = "C09/" + strings.TrimPrefix(o.Violation.Kind, "C12/")
+			default:
+				o.Violation = nil
+			}
+		}
+		return o
+	}})
 }
